@@ -129,3 +129,4 @@ def simplify_expectation_value_circuit(circuit_sand: cirq.Circuit) -> None:
             break
         n_op = new_n_op
     circuit_sand._moments = circuit._moments
+    circuit_sand._mutated()
